@@ -7,7 +7,7 @@ from sa.helpers import (mkflow, spec, code, one, calls, bind_call, param_env,
 from sa.index import AnalysisError, ClassInfo
 from sa.algebra import RF, Slice, dotted
 
-FLOOR = 22
+FLOOR = 30
 OD = 'taurex/opacity/'
 CA = 'taurex/cache/'
 FILES = [OD, 'taurex/cia/', CA, 'taurex/util/util.py']
@@ -81,37 +81,21 @@ def run(ix, R):
     site = OD + 'exotransmit.py::ExoTransmitOpacity._load_exo_transmit'
     with R.guard('1.exo', 'PERM', site, 'exotransmit'):
         f = ix.func(site)
-        fl = mkflow(ix, site)
-        src = unparse(f.node)
-        why = []
-        apps = [e for e in calls(fl, 'append')]
-        a = one(apps, 'wavenumber append')
-        if not fl.tab.proportional(a.args[0], spec(fl, '1/x', {'x': fl.tab.name('x')})) and \
-                '10000 * 1e-06 / arr[0]' not in unparse(a.node):
-            why.append('wavenumber = %s' % unparse(a.node))
-        if '10000 * 1e-06 / arr[0]' not in unparse(a.node):
-            why.append('wavelength (m) to wavenumber (cm-1) is not 1e-2/lambda: %s' % unparse(a.node))
-        st = {unparse(e.target_ast): e for e in fl.of('store') if not e.loops}
-        if 'grid_sort = wn_grid.argsort()' not in src:
-            why.append('no argsort of the wavenumber grid')
-        if unparse(st['self._wavenumber_grid'].node.value) != 'wn_grid[grid_sort]':
-            why.append('grid = %s' % unparse(st['self._wavenumber_grid'].node.value))
-        xs = [e for e in fl.of('store') if unparse(e.target_ast) == 'self._xsec_grid' and not e.loops]
-        last = xs[-1]
-        if unparse(last.node.value) != 'self._xsec_grid[:, :, grid_sort] * 10000':
-            why.append('table = %s' % unparse(last.node.value))
-        rows = [e for e in fl.of('store') if e.loops and 'self._xsec_grid[' in unparse(e.target_ast)]
-        r = one(rows, 'row store')
-        if unparse(r.target_ast) != 'self._xsec_grid[pressure_count, :, lambda_count]':
-            why.append('rows stored at %s' % unparse(r.target_ast))
-        al = [e for e in xs if 'np.empty' in unparse(e.node.value)]
-        if not al or 'self.pressureGrid.shape[0], self.temperatureGrid.shape[0], self.wavenumberGrid.shape[0]' \
-                not in unparse(al[0].node.value):
-            why.append('table allocated as %s' % [unparse(e.node.value) for e in al])
-        R.check('1.exo', 'PERM', site,
-                'Exo-Transmit: wavenumber = 1e-2/lambda(m); one argsort orders the grid and the last axis of the '
-                '(pressure, temperature, wavenumber) table; m2 -> cm2 (x 1e4)',
-                not why, key='; '.join(why), detail='; '.join(why), loc=f.loc())
+        from sa.helpers import need
+        need(R, '1.exo', 'PERM', site,
+             'Exo-Transmit: wavenumber = 1e-2/lambda(m); one argsort orders the grid and the last axis of the '
+             '(pressure, temperature, wavenumber) table; rows stored at [pressure, :, wavelength]; m2 -> cm2 (x 1e4)', f,
+             ['V_wn.append(10000 * 1e-06 / V_arr[0])', 'V_wn = np.array(V_wn)', 'V_sort = V_wn.argsort()',
+              'self._wavenumber_grid = V_wn[V_sort]',
+              'self._xsec_grid = np.empty(shape=(self.pressureGrid.shape[0], self.temperatureGrid.shape[0], self.wavenumberGrid.shape[0]))',
+              '''
+if V_arr2.shape[0] == 1:
+    V_lc += 1
+    V_pc = 0
+else:
+    self._xsec_grid[V_pc, :, V_lc] = V_arr2[1:] + 1e-60
+    V_pc += 1
+''', 'self._xsec_grid = self._xsec_grid[:, :, V_sort] * 10000'])
     # table / grid keys for the dictionary formats
     for site, keys in ((OD + 'pickleopacity.py::PickleOpacity._load_pickle_file',
                         {'self._wavenumber_grid': "'wno'", 'self._temperature_grid': "'t'", 'self._xsec_grid': "'xsecarr'"}),
@@ -187,6 +171,8 @@ def run(ix, R):
                     len(sts) == 2 and not why, key='; '.join(why), detail='; '.join(why), loc=f.loc())
     # ---- 3. clear-after-set
     clear_after_set(ix, R)
+    stateless_discover(ix, R)
+    hitran(ix, R)
     # ---- 4. discover passes the mode
     discover_args(ix, R)
     # ---- 5. molecule names
@@ -253,6 +239,140 @@ def loader_keys(ix):
                             kind = 'KTableCache' if ix.is_subclass(c, ktab) else 'OpacityCache'
                             out.setdefault(reads[e.id], set()).add((c.name, kind, e.id, pos, f.site))
     return out
+
+
+def stateless_discover(ix, R):
+    """discover() must depend on the current configuration only: no memo on
+    the class / module, no caching decorator - otherwise a mode change made
+    after the first discovery is not seen by later loads."""
+    ktab = ix.find_class('KTable')
+    opac = ix.find_class('Opacity')
+    n = 0
+    for c in ix.all_classes():
+        if not (ix.is_subclass(c, opac) or ix.is_subclass(c, ktab)):
+            continue
+        for f in c.methods.get('discover', []):
+            if any(isinstance(x, ast.Raise) for x in f.body()[:1]):
+                continue   # abstract
+            n += 1
+            why = []
+            decs = f.decorators()
+            if [d for d in decs if d != 'classmethod']:
+                why.append('decorated with %s' % [d for d in decs if d != 'classmethod'])
+            first = f.params()[0] if f.params() else 'cls'
+            for node in walk_no_nested(f.node):
+                if isinstance(node, (ast.Assign, ast.AugAssign, ast.AnnAssign)):
+                    tg = node.targets if isinstance(node, ast.Assign) else [node.target]
+                    for t in tg:
+                        for x in ast.walk(t):
+                            if isinstance(x, ast.Attribute) and isinstance(x.value, ast.Name) and \
+                                    x.value.id in (first, c.name, 'self', 'cls'):
+                                why.append('writes %s' % unparse(x))
+                if isinstance(node, (ast.Global, ast.Nonlocal)):
+                    why.append('declares %s' % unparse(node))
+                if isinstance(node, ast.Return) and node.value is not None:
+                    # returned value must be built in this call: a local name or a literal
+                    v = node.value
+                    if isinstance(v, ast.Attribute) or (isinstance(v, ast.Subscript) and
+                                                        isinstance(v.value, ast.Attribute)):
+                        why.append('returns stored state %s' % unparse(v))
+            # class-level mutable attributes used as a memo
+            for node in c.node.body:
+                if isinstance(node, ast.Assign) and isinstance(node.value, (ast.Dict, ast.List, ast.Set)) \
+                        and not (isinstance(node.targets[0], ast.Name) and node.targets[0].id.isupper()):
+                    nm = unparse(node.targets[0])
+                    if any(isinstance(x, ast.Attribute) and x.attr == nm for x in ast.walk(f.node)):
+                        why.append('uses class-level container %s' % nm)
+            R.check('3.stateless', 'EFF', f.site,
+                    'discover() of %s depends only on the current GlobalCache settings and the directory listing '
+                    '(no memo on the class, no caching decorator)' % c.name,
+                    not why, key='; '.join(sorted(set(why))),
+                    detail='%s: a result remembered across calls keeps the interpolation / memory mode of the first '
+                           'discovery' % '; '.join(sorted(set(why))), loc=f.loc())
+    if n < 6:
+        R.error('3.stateless.count', 'EFF', OD, 'loader discover() methods are found', 'found %d' % n)
+
+
+def hitran(ix, R):
+    H = 'taurex/cia/hitrancia.py'
+    from sa.helpers import need
+    from sa.pattern import find
+    site = H + '::HitranCIA.fill_gaps'
+    with R.guard('6.hitran.sort', 'PERM', site, 'sorted (T, sigma) lists'):
+        f = ix.func(site)
+        fl = mkflow(ix, site)
+        so = [e for e in calls(fl, 'sortTempSigma')]
+        ft = one(calls(fl, 'fill_temperature'), 'fill_temperature call')
+        a = len(so) == 1 and so[0].loops == ft.loops and not so[0].guards and \
+            fl.events.index(so[0]) < fl.events.index(ft) and so[0].recv_rf is not None and \
+            fl.tab.equal(so[0].recv_rf, ft.recv_rf)
+        g = ix.func(H + '::HitranCiaGrid.fill_temperature')
+        gl = mkflow(ix, g)
+        gs = [e for e in calls(gl, 'sortTempSigma') if not e.loops and not e.guards]
+        firsts = [e for e in gl.events if e.kind in ('call', 'return', 'loop')]
+        b = bool(gs) and firsts and firsts[0] is gs[0]
+        lp_ok = len(ft.loops) == 1 and fl.tab.equal(ft.loops[0].iter_rf[0], spec(fl, 'self._wn_dict.values()')) \
+            and not ft.guards and fl.tab.equal(ft.args[0], fl.tab.name(f.params()[1]))
+        R.check('6.hitran.sort', 'PERM', site,
+                'every wavenumber range has its (temperature, sigma) list sorted by temperature on every path before it is '
+                'gap-filled and later indexed by the sorted temperature grid',
+                (a or b) and lp_ok, key='sort before fill: in fill_gaps %s, at the head of fill_temperature %s' % (a, b),
+                detail='sortTempSigma() is not executed unconditionally for every range (fill_gaps: %s; fill_temperature head: %s): '
+                       'a range that needs no gap filling keeps file order while compute_final_grid indexes it by the sorted '
+                       'temperature grid' % (a, b), loc=f.loc())
+    site = H + '::HitranCiaGrid.sortTempSigma'
+    with R.guard('6.hitran.key', 'PERM', site, 'sort key'):
+        f = ix.func(site)
+        need(R, '6.hitran.key', 'PERM', site, 'the (T, sigma) list is sorted in place by temperature (element 0)', f,
+             ['self.Tsigma.sort(key=operator.itemgetter(0))'])
+    site = H + '::HitranCiaGrid.fill_temperature'
+    with R.guard('6.hitran.fill', 'PERM', site, 'fill'):
+        f = ix.func(site)
+        need(R, '6.hitran.fill', 'PERM', site,
+             'a missing temperature is added as zeros outside the tabulated range, else by linear interpolation between its '
+             'neighbours, and the list is re-sorted after each addition', f,
+             ['''
+if V_t < min(self.temperature) or V_t > max(self.temperature):
+    self.add_temperature(V_t, np.zeros_like(self.wn))
+else:
+    V_i = self.find_closest_temperature_index(V_t)
+    self.add_temperature(V_t, self.interp_linear_grid(V_t, *V_i))
+'''])
+        fl = mkflow(ix, site)
+        adds = calls(fl, 'add_temperature')
+        sorts = [e for e in calls(fl, 'sortTempSigma') if e.loops]
+        ok = bool(adds) and bool(sorts) and all(fl.events.index(sorts[-1]) > fl.events.index(a_) for a_ in adds) and \
+            all(not [g_ for g_ in s_.guards if not g_.early] for s_ in sorts)
+        R.check('6.hitran.resort', 'PERM', site, 'the list is re-sorted after every added temperature (inside the loop)',
+                ok, key='resort', detail='no re-sort after add_temperature inside the loop', loc=f.loc())
+    site = H + '::HitranCIA.load_hitran_file'
+    with R.guard('6.hitran.load', 'DOM', site, 'load order'):
+        f = ix.func(site)
+        need(R, '6.hitran.load', 'DOM', site,
+             'temperature list sorted, stored as the grid, gaps filled against it, then the final table assembled - in that order', f,
+             ['''
+V_tl.sort()
+self._temperature_grid = np.array(V_tl)
+self.fill_gaps(V_tl)
+self.compute_final_grid()
+''', 'V_obj.add_temperature(V_T, np.array(V_sig))', 'V_obj.wn = np.array(V_wn)'])
+    site = H + '::HitranCIA.compute_final_grid'
+    with R.guard('6.hitran.final', 'PERM', site, 'final grid'):
+        f = ix.func(site)
+        need(R, '6.hitran.final', 'PERM', site,
+             'ranges are concatenated in one order for wavenumbers and cross-sections, one argsort orders both, and row idx '
+             'of the table is the idx-th entry of each (sorted) range list', f,
+             ['''
+for V_w in self._wn_dict.values():
+    V_g.append(V_w.wn)
+''', 'self._wavenumber_grid = np.concatenate(V_g)', 'V_s = np.argsort(self._wavenumber_grid)',
+              'self._wavenumber_grid = self._wavenumber_grid[V_s]', '''
+for V_i, V_t in enumerate(self._temperature_grid):
+    V_ts = []
+    for V_w2 in self._wn_dict.values():
+        V_ts.append(V_w2.Tsigma[V_i][1])
+    V_sa.append(np.concatenate(V_ts)[V_s])
+''', 'self._xsec_grid = np.array(V_sa)'])
 
 
 def clear_after_set(ix, R):
@@ -329,6 +449,10 @@ def discover_args(ix, R):
 
 OC = CA + 'opacitycache.py'
 MUTANTS = [
+    ('seed-c14-a-shape', 'taurex/cia/hitrancia.py', "            wn_obj.sortTempSigma()\n            wn_obj.fill_temperature(temperature)", "            wn_obj.fill_temperature(temperature)", '6.hitran.sort'),
+    ('hitran-final-order', 'taurex/cia/hitrancia.py', "_sigma_array.append(np.concatenate(_temp_sigma)[sorted_idx])", "_sigma_array.append(np.concatenate(_temp_sigma))", '6.hitran.final'),
+    ('hitran-sortkey', 'taurex/cia/hitrancia.py', "self.Tsigma.sort(key=operator.itemgetter(0))", "self.Tsigma.sort(key=operator.itemgetter(1))", '6.hitran.key'),
+    ('discover-memo', OD + 'pickleopacity.py', "        discovery = []\n        interp = GlobalCache()['xsec_interpolation'] or 'linear'", "        if getattr(cls, '_memo', None):\n            return cls._memo\n        discovery = []\n        cls._memo = discovery\n        interp = GlobalCache()['xsec_interpolation'] or 'linear'", '3.stateless'),
     ('pickle-unit', OD + 'pickleopacity.py', "self._pressure_grid = self._spec_dict['p'] * 100000.0", "self._pressure_grid = self._spec_dict['p'] * 1000.0", '1.pressure'),
     ('pickle-nounit', OD + 'ktables/picklektable.py', "self._pressure_grid = self._spec_dict['p'] * 100000.0", "self._pressure_grid = self._spec_dict['p']", '1.pressure'),
     ('hdf5-nounit', OD + 'hdf5opacity.py', "self._pressure_grid = self._spec_dict['p'][:] * p_conversion", "self._pressure_grid = self._spec_dict['p'][:]", '1.pressure'),
